@@ -30,6 +30,7 @@ def check(run, prefix="O7"):
     from . import C08
     C08.ob_status_reporting(run, prefix + ".10")
     C08.ob_event_flow(run, prefix + ".12")
+    C08.ob_implicit_sources(run, prefix + ".16")
     # a notarized / notar-fallback-certified block becomes a parent candidate only if its certificate is admitted: the duplicate
     # test of received certificates must not reject a second notar-fallback block of the same slot
     from . import C03
@@ -207,6 +208,10 @@ def check(run, prefix="O7"):
                     if a[0] == "variant" and a[1][1] <= set(K.CERT_KINDS):
                         names &= a[1][1]
                 o.check(names == arm, "add_valid_cert|%s|arm" % fshort(fn), "%s in the Cert::%s arm(s)" % (fshort(fn).rsplit("::", 1)[-1], "/".join(sorted(arm))), c.span, {"arms": sorted(names)})
+                # ... for EVERY admitted certificate of that kind: the tracker has its own root guard; a further condition here (slot vs highest
+                # finalized slot, ..) withholds certificates for slots that are still tracked
+                extra = D.extra_guards(prog, vb, c.bb, [lambda a: a[0] == "variant" and a[1][1] <= set(K.CERT_KINDS)])
+                o.check(not extra, "add_valid_cert|%s|unconditional" % fshort(fn), "every admitted certificate of the arm reaches the tracker (no further condition)", c.span, {"extra": G.atoms_show(extra)})
                 # argument: the certificate's own slot / block id
                 t = vb.operand_term(c.args[1])
                 o.check(K.mentions_call(t, "Cert::slot"), "add_valid_cert|%s|arg" % fshort(fn), "called with the certificate's own slot/block", c.span, {"arg": mir.show(t)[:160]})
